@@ -193,7 +193,7 @@ def impl_part(ck, tier):
     # more than 50 exchange cycles in one advance (the grouped loop changes regime at 50), and a log-density of large magnitude
     # (every energy shifted by 3000 per coordinate: log-probabilities around -4000, differences unchanged)
     scen.append(("n2_long", dict(temps=[1, 4], starts=[[-3], [4]], kind="gibbs", display=False, seed=s + 9,
-                                 prog=[["advance", 159, 3], ["return"], ["shutdown"]])))
+                                 prog=[["advance", 161, 3], ["return"], ["advance", 7, 10], ["return"], ["shutdown"]])))      # 53 cycles + 2 left over; then 0 cycles + 7
     scen.append(("n3_offset", dict(base3, eoffset=3000, seed=s + 10, force="accept", prog=[["steps", 2], ["swap"], ["steps", 2], ["swap"], ["steps", 1], ["swap"], ["return"], ["shutdown"]])))
     if tier == "thorough":
         scen.append(("n5_pca", dict(temps=[1, 1, 2, 4, 4], starts=[[-3, 4], [4, -3], [0, 1], [3, 3], [-2, -2]], kind="pca", display=True,
